@@ -61,15 +61,10 @@ impl Options {
     /// and receiving a corresponding [`Pong`](crate::ws::Message::Pong).
     #[must_use]
     pub fn keepalive_timeout(mut self, timeout: crate::timing::OptionalDuration) -> Self {
-        // `NONE` orders above every duration: without an interval (yet) there is nothing to
-        // clamp to, and the timeout must not silently become "never".
-        // `Multiplexor::new_detailed` clamps again once both values are known.
-        self.keepalive_timeout = if self.keepalive_interval == crate::timing::OptionalDuration::NONE
-        {
-            timeout
-        } else {
-            timeout.max(self.keepalive_interval)
-        };
+        // The timeout is never shorter than the interval. `Multiplexor::new_detailed` sees to
+        // that once both values are final: clamping here would tie the result to whatever
+        // interval happens to be set at this moment (none yet, or one that is replaced later).
+        self.keepalive_timeout = timeout;
         self
     }
 
